@@ -28,6 +28,9 @@ CONSTANTS
   KM,          \* [kind -> set of modes] offered to operators of that kind (what a resolved recipe can yield)
   IOModes,     \* modes offered to the virtual INPUT / OUTPUT operators
   Share,       \* "none" | "tensor" | "buffer": constants may be shared between ops
+  Dup,         \* "no" | "only" | "both": a subgraph may list one tensor twice among its outputs (return y, y)
+  Layout,      \* "alloc" | "actsfirst" | "both": order of the tensor table - as allocated by the build phase (constants
+               \*   right before the operator's outputs, what a converter emits), or all activations before all constants
   Fixes        \* set of repairs present in the code being modelled (DESIGN 6):
                \*   "perf"   performer: op 0 is a producer, -1 stays -1, position-based id-map shift (F1/F2)
                \*   "remove" guarded list.remove in the requantise branch (F11)
@@ -232,9 +235,12 @@ Sinks(s) == {t \in Produced(s) : ConsumersOf(s, t) = {}}
 InputsUsed(s) == \A k \in 1..Len(G[s].gins) : ConsumersOf(s, G[s].gins[k]) # {}
 
 RECURSIVE OutChoices(_)
+OutSets(s) == {S \in SUBSET Produced(s) : Sinks(s) \subseteq S /\ S # {}}
+\* output lists of subgraph s: ascending, optionally with one output listed a second time at the end
+OutLists(s) == (IF Dup = "only" THEN {} ELSE {AscSeq(S) : S \in OutSets(s)})
+               \cup (IF Dup = "no" THEN {} ELSE UNION {{Append(AscSeq(S), x) : x \in S} : S \in OutSets(s)})
 OutChoices(s) == IF s > NSub THEN {<<>>}
-                 ELSE {<<AscSeq(S)>> \o rest : S \in {S \in SUBSET Produced(s) : Sinks(s) \subseteq S /\ S # {}},
-                                            rest \in OutChoices(s+1)}
+                 ELSE {<<L>> \o rest : L \in OutLists(s), rest \in OutChoices(s+1)}
 RECURSIVE ModeChoicesSub(_, _)
 ModeChoicesSub(s, i) == IF i > NOpsOf(s) THEN {<<>>}
                         ELSE {<<m>> \o rest : m \in KindModes(G[s].ops[i].kind), rest \in ModeChoicesSub(s, i+1)}
@@ -262,10 +268,27 @@ Sealed(G1, mc, im, om) ==
               amap |-> <<>>]]
   /\ order' = <<>> /\ bufw' = <<>> /\ qi' = 0 /\ insts' = <<>> /\ pc' = "mat" /\ why' = "none"
 
+\* the tensor table of g renumbered: activations (in allocation order) first, everything else after them
+ActsFirst(g) ==
+  LET n == Len(g.trole)
+      ids == [t \in 1..n |-> t - 1]
+      neworder == SelectSeq(ids, LAMBDA t : g.trole[t+1] = "act") \o SelectSeq(ids, LAMBDA t : g.trole[t+1] # "act")
+      perm(t) == IF t = -1 THEN -1 ELSE (CHOOSE p \in 1..n : neworder[p] = t) - 1
+  IN [ops |-> [i \in 1..Len(g.ops) |-> [kind |-> g.ops[i].kind,
+                                         ins |-> [j \in 1..Len(g.ops[i].ins) |-> perm(g.ops[i].ins[j])],
+                                         outs |-> [j \in 1..Len(g.ops[i].outs) |-> perm(g.ops[i].outs[j])]]],
+      trole |-> [p \in 1..n |-> g.trole[neworder[p]+1]],
+      tbuf |-> [p \in 1..n |-> g.tbuf[neworder[p]+1]],
+      tsh |-> [p \in 1..n |-> g.tsh[neworder[p]+1]],
+      gins |-> [j \in 1..Len(g.gins) |-> perm(g.gins[j])],
+      gouts |-> [j \in 1..Len(g.gouts) |-> perm(g.gouts[j])]]
+Layouts == (IF Layout = "actsfirst" THEN {} ELSE {"alloc"}) \cup (IF Layout = "alloc" THEN {} ELSE {"actsfirst"})
+Laid(g, lay) == IF lay = "alloc" THEN g ELSE ActsFirst(g)
+
 Seal ==
   /\ pc = "build" /\ NOpsOf(CurS) >= 1 /\ \A s \in 1..NSub : InputsUsed(s)
-  /\ \E oc \in OutChoices(1) : \E mc \in ModeChoices(1) : \E im \in IOModes : \E om \in IOModes :
-       Sealed([s \in 1..NSub |-> [G[s] EXCEPT !.gouts = oc[s]]], mc, im, om)
+  /\ \E oc \in OutChoices(1) : \E mc \in ModeChoices(1) : \E im \in IOModes : \E om \in IOModes : \E lay \in Layouts :
+       Sealed([s \in 1..NSub |-> Laid([G[s] EXCEPT !.gouts = oc[s]], lay)], mc, im, om)
   /\ UNCHANGED nbufg
 
 \* ------------------------------------------------------------------ materialiser
